@@ -337,7 +337,11 @@ def c06 (p : Panel) (a : List String) (evs : List Ev) (before after : Ctrl) : Li
           | none => []
           | some (r, col) => [s!"site={site} reason=outside-changed got=plane{t.plane}@({col},{r}) want=unchanged{winTag}"]
         once ++ content ++ outside
-    r0 ++ r4 ++ r1 ++ r5
+    -- (v) every data block of the call — also on a plane that merely receives a copy — starts at
+    -- the origin of the window that is programmed when it arrives (SSD16xx address counter)
+    let r6 := (eps.filter fun e => !e.fill ∧ !e.startAtOrigin).map fun e =>
+      s!"site={site} reason=counter-not-at-window-origin got=plane{e.plane} want=origin{winTag}"
+    r0 ++ r4 ++ r1 ++ r5 ++ r6.eraseDups
 
 /-! ## C07 — clear_frame -/
 
@@ -353,6 +357,10 @@ def c07 (p : Panel) (a : List String) (bg : Nat) (before after : Ctrl) (primary 
       [s!"site={site} reason=plane-not-filled-exactly-once got=plane{pl}:{tot} want={size}"]) ++
     (if (regionUniform p.name after pl wb p.height).isSome then [] else
       [s!"site={site} reason=not-uniform got=plane{pl} want=single-value"])
+  -- every image plane the driver's own full-frame entry points can write must be filled
+  let required := (["upd", "old", "newf", "base", "achro", "chro", "color"].flatMap fun o => (fullTargets p.name o).map (·.plane)).eraseDups
+  let r2 := (required.filter fun pl => !planes.contains pl).map fun pl =>
+    s!"site={site} reason=plane-not-filled got=plane{pl}:0 want={planeBytes p pl after}"
   let want := (primary.enc.apply [uniformByte p.name bg, uniformByte p.name bg]).headD 0
   let wbp := rowBytes p primary.enc
   let r1 := if !planes.contains primary.plane then
@@ -374,7 +382,7 @@ def c07 (p : Panel) (a : List String) (bg : Nat) (before after : Ctrl) (primary 
       | some v => if v = want then [] else
           [s!"site={site} reason=primary-differs-from-uniform-frame got={hexByte v} want={hexByte want} bg={bg}"]
       | none => []
-  r0 ++ r1
+  r0 ++ r1 ++ r2
 
 /-! ## C08 / C09 / C17 helpers -/
 
